@@ -7,7 +7,8 @@ wt=$(mktemp -d /tmp/wt-XXXXXX); rmdir "$wt"
 git -C /repo worktree add --detach "$wt" >/dev/null 2>&1 || { echo "worktree failed"; exit 2; }
 cleanup() { git -C /repo worktree remove --force "$wt" >/dev/null 2>&1; rm -rf "$wt"; git -C /repo worktree prune; }
 trap cleanup EXIT
-git -C "$wt" apply "$patch" || { echo "TROUBLE patch does not apply: $patch"; exit 2; }
+git -C "$wt" apply "$patch" 2>/dev/null || git -C "$wt" apply --3way "$patch" >/dev/null 2>&1 || { echo "TROUBLE patch does not apply: $patch"; exit 2; }
+( cd "$wt" && go build ./... ) >/dev/null 2>&1 || { echo "TROUBLE patched tree does not build: $patch"; exit 2; }
 for id in "$@"; do
   out=$(VERIF_REPO="$wt" VERIF_EVIDENCE_DIR=/tmp/seed-evidence /verif/bin/verif check "$id" --tier ${TIER:-quick} ${EXTRA:-} 2>&1)
   rc=$?
